@@ -147,6 +147,22 @@ def check(ctx):
     orb = [n for n in walk_no_nested(fsu) if isinstance(n, ast.If) and eqv(n.test, "isinstance(self.predicate, Or)")]
     ok = len(orb) == 1 and any(eqv(r.value, "parent.substitute(self, type(self)(self.frame, result))") for r in returns(orb[0])) and not any("parent.operands[1:]" in unparse(r.value) for r in returns(orb[0]))
     ctx.ob("ARGPOS.simplify-up.substitute", fsu, "the Or-rewrite returns parent.substitute(self, <rewritten filter>) (the parent type is not known there)", ok, "" if ok else "rebuilding as type(parent)(new, *parent.operands[1:]) puts the filter into operand 0 of ANY parent: d.b - flt becomes flt' - flt")
+    # ---------------- generic: `type(parent)(X, *parent.operands[1:])` presumes that self is operand 0 of the parent;
+    # that is only known under a type test of the parent
+    n_rb = 0
+    for rel in ctx.model.package_files("dask"):
+        if not rel.startswith("dask/dataframe/dask_expr/") or "/tests/" in rel:
+            continue
+        for qn, f_ in ctx.model.module(rel).functions():
+            if not qn.endswith("_simplify_up"):
+                continue
+            for c in ast.walk(f_):
+                if isinstance(c, ast.Call) and unparse(c.func) == "type(parent)" and any(isinstance(a, ast.Starred) and unparse(a.value) == "parent.operands[1:]" for a in c.args):
+                    n_rb += 1
+                    guarded = any(pol and "isinstance(parent" in unparse(e) for e, pol in cfg_of(f_).facts(c))
+                    ctx.ob("ARGPOS.simplify-up.guarded", c, f"{qn}: positional rebuild of the parent happens under isinstance(parent, ...)", guarded, "" if guarded else "for an arbitrary parent self need not be its first operand: the parent's real first operand is overwritten", nontrivial=not guarded)
+    ctx.count("positional_parent_rebuilds", n_rb)
+    ctx.floor("positional_parent_rebuilds", 12)
 
 
 VARIANTS = [
